@@ -7,7 +7,9 @@ this file) sits between the frontend and the model and changes responses on the 
 
 Experiments (field "exp" of a case)
   auth         authenticate(p) against a model holding key k: True <=> k is the key the documentation derives from p
-  auth-tamper  same with one response of the authentication exchange modified (single bit / random bytes / replay)
+  auth-tamper  same with one response of the authentication exchange modified (single bit / random bytes / replay
+               of the answer of an earlier session, also against a tag holding another key); Lite-S additionally with
+               a WCNT bit flipped *and* the resulting error status of the STATE write forged into success
   read-mac     FeliCa Lite/Lite-S: read_with_mac(*blocks) after authenticate, untampered and with the Read response
                modified (every single bit; random bytes; block swap; response of an earlier session)
   ndef-read    NDEF read (tag.ndef) on an authenticated Lite/Lite-S tag with any response of the read modified
@@ -37,7 +39,8 @@ RULE = ("cases = (tag kind {FeliCa Lite, Lite-S, Lite-S/Link, NTAG210/212/213/21
         "password (length 0,1,15,16,17,32,64 resp. 0,1,5,6,7,16,32,64; bytes/bytearray/str) x relation of the key "
         "held by the tag model to the key derived from the password {same, same-prefix, parity-equivalent, one bit, "
         "random, factory, padded}) for authenticate; x every single bit of every response of the authentication "
-        "exchange (striped over the shards), random byte substitutions and replays for auth-tamper; (key, 1-3 "
+        "exchange (striped over the shards), random byte substitutions, replays of an earlier session and (Lite-S) "
+        "WCNT flip + forged write status for auth-tamper; (key, 1-3 "
         "block numbers) x every single bit of the Read response + random modifications + earlier-session replay "
         "for read_with_mac; NDEF read and write_with_mac likewise; protect(p) -> authenticate(p)/authenticate(q) "
         "pairs. A case is distinct by (experiment, tag model, password, modification) and non-trivial when the "
@@ -60,7 +63,7 @@ REQUIRED = ["sessions_lite", "sessions_lites", "sessions_ntag21x", "sessions_ulc
             "auth_not_true_wrong_key", "authT_covered_rejected", "mac_read_untampered_ok", "mac_tamper_data_rejected",
             "mac_tamper_mac_rejected", "mac_replay_rejected", "ndef_read_untampered_ok",
             "ndef_tamper_covered_rejected", "maca_write_ok", "maca_wcnt_tamper_rejected", "protect_auth_pairs_ok",
-            "protect_other_password_rejected"]
+            "protect_other_password_rejected", "lites_mutual_checked", "authT_forged_write_status_rejected"]
 
 NTAGS = ("ntag210", "ntag212", "ntag213", "ntag215", "ntag216")
 ULEV1 = ("ul11", "ul21")
@@ -78,8 +81,8 @@ def plan(tier, seed):
         base = dict(auth_felica=100, auth_ntag=500, auth_ulc=30, stripes=1, authT_rand=16, authT_ntag=24,
                     readmac=[2, 1, 1], readmac_rand=30, ndef=1, ndef_rand=6, wmac=10, wmac_stripes=1, protect=1)
         return [dict(base) for _ in range(n)]
-    base = dict(auth_felica=800, auth_ntag=5000, auth_ulc=300, stripes=16, authT_rand=300, authT_ntag=400,
-                readmac=[30, 14, 10], readmac_rand=500, ndef=16, ndef_rand=100, wmac=200, wmac_stripes=16, protect=12,
+    base = dict(auth_felica=800, auth_ntag=5000, auth_ulc=300, stripes=12, authT_rand=200, authT_ntag=400,
+                readmac=[20, 10, 6], readmac_rand=400, ndef=10, ndef_rand=80, wmac=150, wmac_stripes=12, protect=8,
                 timeout=3000)
     return [dict(base) for _ in range(n)]
 
@@ -397,8 +400,8 @@ class _OsShim(object):
 
 
 @contextlib.contextmanager
-def recorded_challenges(values):
-    if not values:
+def recorded_challenges(values, mode=None):
+    if not values or mode == "replay":
         yield
         return
     import nfc.tag.tt3_sony as mod
@@ -445,7 +448,9 @@ class Sess(object):
 
 def report(R, sess, sig, what, case):
     c = dict(case)
-    if sess is not None:
+    if sess is not None and case.get("mode") != "replay":
+        # (a replayed recording must meet a *fresh* challenge also in --replay: forcing the recorded one could make
+        # the old answer valid again, so those cases keep the real os.urandom)
         ch = sess.challenges()
         if ch:
             c["challenge"] = ch
@@ -533,11 +538,18 @@ def x_auth_tamper(case, R):
         R.case(("authT", ms, case["tamper"]), nontrivial=False)
         return
     at = int(case["tamper"]["at"])
-    sess.mitm.arm({at: case["tamper"]})
+    plan_ = {at: case["tamper"]}
+    also = case["tamper"].get("also")          # a second response modified in the same exchange
+    if also:
+        plan_[int(also["at"])] = also
+    sess.mitm.arm(plan_)
     res = call(lambda: tag.authenticate(pw_obj(pw, case.get("ptype", "bytes"))))
     tr = sess.mitm.trace
     sess.mitm.disarm()
     applied = at < len(tr) and tr[at][1] is not None and tr[at][1] != tr[at][2]
+    if also:
+        k = int(also["at"])
+        applied = applied and k < len(tr) and tr[k][1] is not None and tr[k][1] != tr[k][2]
     R.case(("authT", ms, repr(pw), case["tamper"]), nontrivial=applied)
     if not applied:
         R.count("authT_not_applied")
@@ -553,6 +565,8 @@ def x_auth_tamper(case, R):
     R.count("authT/%s/%s/%s/%s" % (fam, role, label, "accepted" if is_true else "rejected"))
     if not is_true:
         R.count("authT_reject_kind/%s/%s" % (fam, ok))
+    if mode == "forged-write-status":
+        R.count("authT_forged_write_status_" + ("accepted" if is_true else "rejected"))
     if "bit" in case["tamper"]:
         R.seen("authT_positions/" + sess.kind, "%d:%d" % (at, case["tamper"]["bit"]))
     if is_true and covered:
@@ -560,6 +574,8 @@ def x_auth_tamper(case, R):
                 % (role, mode, sorted(parts)))
         if mode == "replay":
             sig = "auth/accepted-replay/%s/%s" % (fam, role)
+        elif mode == "forged-write-status":
+            sig = "auth/accepted-tampered/%s/forged-write-status" % fam
         elif not holds(ms, pw):
             sig = "auth/false-positive/%s/substituted-%s" % (fam, role)
         else:
@@ -680,7 +696,7 @@ def judge_read(R, sess, case, tr, res, want, blocks):
 
 
 def x_read_mac(case, R):
-    with recorded_challenges(case.get("challenge")):
+    with recorded_challenges(case.get("challenge"), case.get("mode")):
         readmac_session(case, R, [case["tamper"]] if case.get("tamper") else [], cache=False)
 
 
@@ -696,7 +712,7 @@ def x_ndef_read(case, R):
     ms = case["ms"]
     sess = Sess(ms, R)
     fam = sess.fam
-    with recorded_challenges(case.get("challenge")):
+    with recorded_challenges(case.get("challenge"), case.get("mode")):
         tag = setup_authenticated(case, R, sess)
         if tag is None:
             R.case(("ndef", ms, case.get("tamper")), nontrivial=False)
@@ -754,7 +770,7 @@ def x_write_mac(case, R):
     ms, block, data = case["ms"], int(case["block"]), bytes(case["data"])
     sess = Sess(ms, R)
     model = sess.model
-    with recorded_challenges(case.get("challenge")):
+    with recorded_challenges(case.get("challenge"), case.get("mode")):
         tag = setup_authenticated(case, R, sess)
         if tag is None:
             R.case(("wmac", ms, block, case.get("tamper")), nontrivial=False)
@@ -894,7 +910,7 @@ EXPERIMENTS = {"auth": x_auth, "auth-tamper": x_auth_tamper, "read-mac": x_read_
 def evaluate(case, R):
     try:
         if case["exp"] in ("auth", "auth-tamper", "protect"):
-            with recorded_challenges(case.get("challenge")):
+            with recorded_challenges(case.get("challenge"), case.get("mode")):
                 return EXPERIMENTS[case["exp"]](case, R)
         return EXPERIMENTS[case["exp"]](case, R)
     except tagdevice.SimTagDevice.Bound as e:
@@ -1034,6 +1050,16 @@ def w_auth_tamper(R, rng, desc):
                 if (j + shard + s) % 16 and fam not in ("ntag21x", "ulev1"):
                     continue
                 evaluate({"exp": "auth-tamper", "ms": ms, "pw": pw, "tamper": {"at": i, "bit": b}, "mode": "bit"}, R)
+        if kind == "lites":
+            # two modifications: a WCNT bit is flipped (the tag then refuses the write of STATE with MAC_A) and the
+            # error status of that write is turned into success; only the MAC protected read of STATE tells
+            for _ in range(max(2, desc["authT_rand"] // 4)):
+                pw = gen_password(rng, fam, "bytes", rng.choice([0, 16, 32]))
+                ms = spec_for(rng, kind, derive(fam, pw))
+                ok_status = bytes([0x0C, 0x09]) + ms["idm"] + b"\x00\x00"
+                evaluate({"exp": "auth-tamper", "ms": ms, "pw": pw, "mode": "forged-write-status",
+                          "tamper": {"at": 2, "bit": 13 * 8 + rng.randrange(24),
+                                     "also": {"at": 3, "replace": ok_status}}}, R)
         # random modifications of one response, replay of the deciding response of an earlier session
         for _ in range(desc["authT_rand"] if fam not in ("ntag21x", "ulev1") else desc["authT_ntag"]):
             pw = gen_password(rng, fam, "bytes", rng.choice([0, KEYLEN[fam], 17]))
